@@ -2,7 +2,7 @@ SPECIFICATION Spec
 CONSTANTS
   Reqs = {1, 2}
   MaxResends = 1
-  MaxRefresh = 2
+  MaxRefresh = 0
   HookBeforeQuitCheck = FALSE
 INVARIANTS Conserved NeverAhead
 CHECK_DEADLOCK FALSE
